@@ -103,4 +103,53 @@ theorem C03_normalisers (E : Env K X Y Z) (q : X) (b : Y) (h : Z) :
 theorem C03_epilogue_map :
     (coneqp.returns[1]?).map (·.2) = some [("symm", "s", "order m over dims['s'] from dims['l'] + sum(dims['q']) step m ** 2"), ("symm", "z", "order m over dims['s'] from dims['l'] + sum(dims['q']) step m ** 2")] := by decide
 
+/-! ## The problem without inequality constraints (`if cdim == 0:`): one KKT solve, no iteration -/
+
+def shortcutStatus (k : Nat) : Option String :=
+  (coneqp.shortcut.returns[k]?).bind (fun r => (r.find? (·.1 == "status")).map (·.2))
+
+theorem C03_shortcut_statuses :
+    coneqp.shortcut.returns.map (fun r => (r.find? (·.1 == "status")).map (·.2)) = [some "'optimal'", some "'unknown'"] := by decide
+
+/-- **Soundness of 'optimal' without inequalities.** Whatever the KKT solve produced as `x`, `y` (it is performed once, in floating
+point, without refinement): if the block takes a `return` whose status is `'optimal'` then `‖Px + q + Aᵀy‖ ≤ feastol·resx0` and
+`‖Ax − b‖ ≤ feastol·resy0` hold for the returned `x`, `y`. -/
+theorem C03_shortcut_optimal_sound (E : Env K X Y Z) (i : coneqp.shortcut.In K X Y Z) (FEASTOL : K) (k : Nat)
+    (hx0 : 0 < i.resx0) (hy0 : 0 < i.resy0) :
+    let st := coneqp.shortcut.stats E i
+    coneqp.shortcut.branch FEASTOL st.dres st.pres = coneqp.shortcut.Branch.ret k →
+    shortcutStatus k = some "'optimal'" →
+    E.nX (E.P i.x + i.q + E.At i.y) ≤ FEASTOL * i.resx0 ∧ E.nY (E.A i.x - i.b) ≤ FEASTOL * i.resy0 := by
+  intro st hb hs
+  by_cases hc : (decide (st.pres ≤ FEASTOL) && decide (st.dres ≤ FEASTOL)) = true
+  · simp only [Bool.and_eq_true, decide_eq_true_eq] at hc
+    obtain ⟨hpres, hdres⟩ := hc
+    have e1 : E.P i.x + i.q + E.At i.y = (1:K) • E.At i.y + (1:K) • ((1:K) • E.P i.x + (1:K) • i.q) := by module
+    have e2 : E.A i.x - i.b = (1:K) • E.A i.x + (-(1:K)) • i.b := by module
+    have hd : st.dres = E.nX ((1:K) • E.At i.y + (1:K) • ((1:K) • E.P i.x + (1:K) • i.q)) / i.resx0 := rfl
+    have hp : st.pres = E.nY ((1:K) • E.A i.x + (-(1:K)) • i.b) / i.resy0 := rfl
+    rw [hd, div_le_iff₀ hx0] at hdres
+    rw [hp, div_le_iff₀ hy0] at hpres
+    exact ⟨by rw [e1]; exact hdres, by rw [e2]; exact hpres⟩
+  · exfalso
+    simp only [coneqp.shortcut.branch, hc, Bool.false_eq_true, if_false] at hb
+    injection hb with hk
+    subst hk
+    revert hs; decide
+
+/-- the fields of both returns: the solution of the KKT solve is returned unscaled, the reported infeasibilities are the residuals
+the status was decided on, both objectives are `pcost` -/
+theorem C03_shortcut_result_map :
+    ∀ r ∈ coneqp.shortcut.returns,
+      r.lookup "x" = some "x" ∧ r.lookup "y" = some "y" ∧ r.lookup "primal infeasibility" = some "pres" ∧
+      r.lookup "dual infeasibility" = some "dres" ∧ r.lookup "primal objective" = some "pcost" ∧ r.lookup "dual objective" = some "pcost" := by
+  decide
+
+/-- `primal objective` of the shortcut is `½ xᵀPx + qᵀx` -/
+theorem C03_shortcut_pcost (E : Env K X Y Z) (i : coneqp.shortcut.In K X Y Z)
+    (addX : ∀ x u v, E.dX x (u + v) = E.dX x u + E.dX x v) (smulX : ∀ (a : K) x u, E.dX x (a • u) = a * E.dX x u) :
+    (coneqp.shortcut.stats E i).pcost = (1 / 2) * E.dX i.x (E.P i.x) + E.dX i.x i.q := by
+  have hp : (coneqp.shortcut.stats E i).pcost = (1 / 2) * (E.dX i.x ((1:K) • E.P i.x + (1:K) • i.q) + E.dX i.x i.q) := rfl
+  rw [hp, addX, smulX, smulX]; ring
+
 end CvxVerif.C03
